@@ -117,6 +117,9 @@ func newC14(tier string) run.Job {
 		if len(p) <= d3 {
 			ms = 3
 		}
+		if len(p) >= 3 {
+			ms = 1
+		}
 		j.units = append(j.units, c14Unit{prefix: p, kind: 0, maxSeq: ms})
 	}
 	// operand chains: after $, $.a, $.*, $[0], $..a
@@ -225,7 +228,7 @@ func init() {
 		},
 		Bounds: map[string]string{
 			"quick":    "navigation prefixes of <=2 steps over the 16-step alphabet followed by every sequence of 1..2 functions (1..3 after <=1 step) out of 6; function chains of 1..2 inside filter operands (9 operand paths x 3 filter forms) after 5 prefixes; every document of <=4 nodes",
-			"thorough": "prefixes of <=3 steps with 1..2 functions (1..3 after <=2 steps); operand chains as in quick; every document of <=5 nodes",
+			"thorough": "prefixes of <=2 steps with 1..3 functions, 3 steps with one function; operand chains as in quick; every document of <=5 nodes",
 		},
 		New: newC14,
 		Replay: func(cs map[string]interface{}) (bool, string) {
